@@ -1,0 +1,47 @@
+//go:build verif
+
+package riscv
+
+// Exports for the verification harness (cmd/verifharness). Guarded by the
+// build tag "verif"; nothing here is compiled into ordinary builds.
+
+// VerifEntry is the decode-relevant part of one instruction table entry.
+type VerifEntry struct {
+	Variant      uint8
+	Extension    uint8
+	Index        int
+	Name         string
+	Bytes        []byte
+	Mask         []byte
+	InputRegCnt  uint8
+	HasOutputReg bool
+	LoadBytes    uint8
+	StoreBytes   uint8
+	Immediate    uint8
+	InstrType    uint64
+}
+
+// VerifTable lists all instruction table entries of variant v in table order
+// (extension I, M, A; index within the extension list).
+func VerifTable(v Variant) []VerifEntry {
+	var out []VerifEntry
+	for e := extI; e < extEnd; e++ {
+		for i, t := range instructions[v][e] {
+			out = append(out, VerifEntry{
+				Variant:      uint8(v),
+				Extension:    uint8(e),
+				Index:        i,
+				Name:         t.name,
+				Bytes:        append([]byte(nil), t.opcode.Bytes...),
+				Mask:         append([]byte(nil), t.opcode.Mask...),
+				InputRegCnt:  t.inputRegCnt,
+				HasOutputReg: t.hasOutputReg,
+				LoadBytes:    t.loadBytes,
+				StoreBytes:   t.storeBytes,
+				Immediate:    uint8(t.immediate),
+				InstrType:    uint64(t.instrType),
+			})
+		}
+	}
+	return out
+}
